@@ -925,7 +925,7 @@ def default_output(ctx, op, ins):
         # einx de-duplicates candidate expressions by equality, so identical expressions count once
         uniq = []
         for i in parents:
-            if not any(ins[i] == ins[j] for j in uniq):
+            if not any(_norm_flat(ins[i]) == _norm_flat(ins[j]) for j in uniq):
                 uniq.append(i)
         if len(uniq) != 1:
             return None
@@ -955,6 +955,25 @@ def default_output(ctx, op, ins):
             return None
         return [repl(ins[0])]
     return None
+
+
+def _norm_flat(items):
+    """einx collapses directly nested parentheses: ((x)) is the same expression as (x)."""
+    out = []
+    for it in items:
+        t = it[0]
+        if t == "flat":
+            inner = _norm_flat(it[1])
+            while len(inner) == 1 and inner[0][0] == "flat":
+                inner = inner[0][1]
+            out.append(["flat", inner])
+        elif t in ("cat", "br"):
+            out.append([t, _norm_flat(it[1])])
+        elif t == "ell":
+            out.append(["ell", _norm_flat(it[1]), it[2]])
+        else:
+            out.append(it)
+    return out
 
 
 def has_br(items):
